@@ -1,8 +1,259 @@
 (** Proofs about the loader / build-order model of Caco/Load.v. *)
-From Coq Require Import List String Bool Arith Lia Permutation.
+From Coq Require Import List String Bool Arith Lia Permutation Relations.
 From Verif Require Import Caco.Load.
 Import ListNotations.
 Local Open Scope string_scope.
+
+(** * Basics *)
+
+Lemma mem_In x l : mem x l = true <-> In x l.
+Proof.
+  unfold mem. rewrite existsb_exists. split.
+  - intros [y [Hy He]]. apply String.eqb_eq in He. now subst.
+  - intros H. exists x. split; [assumption|apply String.eqb_refl].
+Qed.
+
+Lemma mem_false x l : mem x l = false <-> ~ In x l.
+Proof.
+  rewrite <- mem_In. destruct (mem x l); intuition congruence.
+Qed.
+
+Lemma find_node_Some k l n : find_node k l = Some n -> In n l /\ nname n = k.
+Proof.
+  induction l as [|m l IH]; simpl; [discriminate|].
+  destruct (String.eqb_spec k (nname m)).
+  - intros [= <-]. auto.
+  - intros H. destruct (IH H). auto.
+Qed.
+
+Lemma find_node_None k l : find_node k l = None <-> ~ In k (map nname l).
+Proof.
+  induction l as [|m l IH]; simpl; [tauto|].
+  destruct (String.eqb_spec k (nname m)).
+  - split; [discriminate|]. intros H. exfalso. apply H. left. congruence.
+  - rewrite IH. split; intros H; [intros [E|I]; [congruence|auto]|auto].
+Qed.
+
+Lemma has_node_In k l : has_node k l = true <-> In k (map nname l).
+Proof.
+  unfold has_node. destruct (find_node k l) eqn:E.
+  - split; [|reflexivity]. intros _. apply find_node_Some in E.
+    destruct E as [Hin <-]. now apply in_map.
+  - split; [discriminate|]. intros H. apply find_node_None in E. tauto.
+Qed.
+
+Lemma has_node_false k l : has_node k l = false <-> ~ In k (map nname l).
+Proof.
+  rewrite <- has_node_In. destruct (has_node k l); intuition congruence.
+Qed.
+
+Lemma find_node_NoDup l n :
+  NoDup (map nname l) -> In n l -> find_node (nname n) l = Some n.
+Proof.
+  induction l as [|m l IH]; simpl; [tauto|].
+  intros Hnd [->|Hin].
+  - now rewrite String.eqb_refl.
+  - inversion Hnd as [|? ? Hni Hnd']; subst.
+    destruct (String.eqb_spec (nname n) (nname m)) as [E|E].
+    + exfalso. apply Hni. rewrite <- E. now apply in_map.
+    + auto.
+Qed.
+
+Lemma add_err_nonnil e l : add_err e l <> [].
+Proof.
+  unfold add_err. destruct (Nat.ltb_spec (List.length l) max_errs).
+  - destruct l; discriminate.
+  - destruct l; [simpl in *; unfold max_errs in *; lia|discriminate].
+Qed.
+
+Lemma add_err_keeps e l : l <> [] -> add_err e l <> [].
+Proof. intros _. apply add_err_nonnil. Qed.
+
+Lemma add_errs_keeps es l : l <> [] -> add_errs es l <> [].
+Proof.
+  revert l. induction es as [|e es IH]; simpl; intros l H; [assumption|].
+  apply IH. apply add_err_nonnil.
+Qed.
+
+Lemma add_errs_nonnil es l : es <> [] -> add_errs es l <> [].
+Proof.
+  destruct es as [|e es]; [congruence|]. intros _. simpl.
+  apply add_errs_keeps. apply add_err_nonnil.
+Qed.
+
+Lemma NoDup_app_intro {A} (a b : list A) :
+  NoDup a -> NoDup b -> (forall x, In x a -> In x b -> False) -> NoDup (a ++ b).
+Proof.
+  induction a as [|x a IH]; simpl; intros Ha Hb Hd; [assumption|].
+  inversion Ha as [|? ? Hx Ha']; subst. constructor.
+  - rewrite in_app_iff. intros [H|H]; [auto|]. eapply Hd; eauto.
+  - apply IH; auto. intros y Hy. apply Hd. now right.
+Qed.
+
+Lemma NoDup_app_inv {A} (a b : list A) :
+  NoDup (a ++ b) -> NoDup a /\ NoDup b /\ (forall x, In x a -> In x b -> False).
+Proof.
+  induction a as [|x a IH]; simpl; intros H.
+  - repeat split; [constructor|assumption|intros x []].
+  - inversion H as [|? ? Hx H']; subst. destruct (IH H') as (Ha & Hb & Hd).
+    repeat split; auto.
+    + constructor; auto. intros Hin. apply Hx. apply in_app_iff. now left.
+    + intros y [<-|Hy] Hyb; [apply Hx; apply in_app_iff; now right|eauto].
+Qed.
+
+Lemma split_app {A} (a b l1 : list A) x l2 :
+  (a ++ b = l1 ++ x :: l2)%list ->
+  (exists l2', a = l1 ++ x :: l2' /\ l2 = l2' ++ b)%list \/
+  (exists l1', l1 = a ++ l1' /\ b = l1' ++ x :: l2)%list.
+Proof.
+  revert l1. induction a as [|y a IHa]; intros l1 E; simpl in *.
+  - right. exists l1. auto.
+  - destruct l1 as [|z l1]; simpl in *.
+    + injection E as E1 E2. subst. left. exists a. auto.
+    + injection E as E1 E2. subst z.
+      destruct (IHa l1 E2) as [[l2' [E3 E4]]|[l1' [E3 E4]]]; subst.
+      * left. exists l2'. auto.
+      * right. exists l1'. auto.
+Qed.
+
+Lemma ofold_none {A B} (f : B -> A -> option A) l : ofold f l None = None.
+Proof. induction l; simpl; auto. Qed.
+
+Lemma ofold_cons {A B} (f : B -> A -> option A) b l a :
+  ofold f (b :: l) (Some a) = ofold f l (f b a).
+Proof. reflexivity. Qed.
+
+(** * Reading build files terminates (repaired code) *)
+
+Definition unseen (fs : bfiles) (seen : list name) : nat :=
+  List.length (filter (fun k => negb (mem k seen)) (map fst fs)).
+
+Lemma filter_length_le {A} (f g : A -> bool) l :
+  (forall x, In x l -> f x = true -> g x = true) ->
+  List.length (filter f l) <= List.length (filter g l).
+Proof.
+  induction l as [|a l IH]; simpl; intros H; [lia|].
+  assert (IH' := IH (fun x Hx => H x (or_intror Hx))).
+  destruct (f a) eqn:Fa.
+  - rewrite (H a (or_introl eq_refl) Fa). simpl. lia.
+  - destruct (g a); simpl; lia.
+Qed.
+
+Lemma filter_length_lt {A} (f g : A -> bool) l a :
+  (forall x, In x l -> f x = true -> g x = true) ->
+  In a l -> f a = false -> g a = true ->
+  List.length (filter f l) < List.length (filter g l).
+Proof.
+  induction l as [|b l IH]; simpl; intros H Hin Fa Ga; [tauto|].
+  assert (Hle := filter_length_le f g l (fun x Hx => H x (or_intror Hx))).
+  destruct Hin as [->|Hin].
+  - rewrite Fa, Ga. simpl. lia.
+  - assert (IH' := IH (fun x Hx => H x (or_intror Hx)) Hin Fa Ga).
+    destruct (f b) eqn:Fb.
+    + rewrite (H b (or_introl eq_refl) Fb). simpl. lia.
+    + destruct (g b); simpl; lia.
+Qed.
+
+Lemma unseen_mono fs s s' : incl s s' -> unseen fs s' <= unseen fs s.
+Proof.
+  intros Hi. apply filter_length_le. intros x _ Hx.
+  apply negb_true_iff in Hx. apply negb_true_iff.
+  apply mem_false in Hx. apply mem_false. intros Hin. apply Hx. now apply Hi.
+Qed.
+
+Lemma lookup_In {A} k (l : list (name * A)) v : lookup k l = Some v -> In k (map fst l).
+Proof.
+  induction l as [|[k' v'] l IH]; simpl; [discriminate|].
+  destruct (String.eqb_spec k k'); [intros _; left; congruence|intros H; right; auto].
+Qed.
+
+Lemma unseen_lt fs s p ds :
+  lookup p fs = Some ds -> ~ In p s -> unseen fs (p :: s) < unseen fs s.
+Proof.
+  intros Hl Hn. apply filter_length_lt with (a := p).
+  - intros x _ Hx. apply negb_true_iff in Hx. apply negb_true_iff.
+    apply mem_false in Hx. apply mem_false. intros Hin. apply Hx. now right.
+  - eapply lookup_In; eauto.
+  - apply negb_false_iff. apply mem_In. now left.
+  - apply negb_true_iff. now apply mem_false.
+Qed.
+
+Lemma register_seen n st : r_seen (register n st) = r_seen st.
+Proof.
+  unfold register, r_err.
+  destruct (String.eqb (nname n) ""); [reflexivity|].
+  destruct (has_node (nname n) (r_nodes st)); reflexivity.
+Qed.
+
+Lemma register_decl_seen d st : r_seen (register_decl st d) = r_seen st.
+Proof.
+  destruct d as [nm deps outs| |]; simpl; try reflexivity.
+  generalize (register (mkNode nm TRule deps) st) (register_seen (mkNode nm TRule deps) st).
+  induction outs as [|o outs IH]; simpl; intros r Hr; [assumption|].
+  apply IH. now rewrite register_seen.
+Qed.
+
+Lemma register_decls_seen ds st : r_seen (fold_left register_decl ds st) = r_seen st.
+Proof.
+  revert st. induction ds as [|d ds IH]; simpl; intros st; [reflexivity|].
+  now rewrite IH, register_decl_seen.
+Qed.
+
+(** With more fuel than directories not yet read, [read_dir] returns, and
+    it only adds to the set of directories read. *)
+Lemma read_dir_total fs : forall f p st,
+  unseen fs (r_seen st) < f ->
+  exists st', read_dir f fs p st = Some st' /\ incl (r_seen st) (r_seen st').
+Proof.
+  induction f as [|f IH]; intros p st Hf; [lia|].
+  simpl. destruct (mem p (r_seen st)) eqn:Hm.
+  - exists st. split; [reflexivity|apply incl_refl].
+  - apply mem_false in Hm.
+    destruct (lookup p fs) as [ds|] eqn:Hl.
+    + destruct (file_errs ds) as [|e es] eqn:He.
+      * (* recursion into the sub directories *)
+        set (st1 := fold_left register_decl ds
+                      (mkR (r_nodes st) (r_errs st) (p :: r_seen st))).
+        assert (Hs1 : r_seen st1 = p :: r_seen st)
+          by (unfold st1; now rewrite register_decls_seen).
+        assert (Hlt : unseen fs (r_seen st1) < f).
+        { rewrite Hs1. pose proof (unseen_lt fs (r_seen st) p ds Hl Hm). lia. }
+        assert (Hfold : forall l s, unseen fs (r_seen s) < f ->
+                  exists s', ofold (read_dir f fs) l (Some s) = Some s'
+                             /\ incl (r_seen s) (r_seen s')).
+        { induction l as [|d l IHl]; intros s Hs.
+          - exists s. split; [reflexivity|apply incl_refl].
+          - rewrite ofold_cons. destruct (IH d s Hs) as [s1 [E1 I1]]. rewrite E1.
+            destruct (IHl s1) as [s2 [E2 I2]].
+            { pose proof (unseen_mono fs _ _ I1). lia. }
+            exists s2. split; [assumption|]. eapply incl_tran; eauto. }
+        destruct (Hfold (sort_dedup (sub_dirs ds)) st1 Hlt) as [s' [E I]].
+        exists s'. split; [exact E|].
+        intros x Hx. apply I. rewrite Hs1. now right.
+      * eexists. split; [reflexivity|]. simpl. intros x Hx. now right.
+    + eexists. split; [reflexivity|]. simpl. intros x Hx. now right.
+Qed.
+
+Lemma filter_length_all {A} (f : A -> bool) l : List.length (filter f l) <= List.length l.
+Proof. induction l as [|a l IH]; simpl; [lia|]. destruct (f a); simpl; lia. Qed.
+
+Lemma unseen_le_length fs s : unseen fs s <= List.length fs.
+Proof.
+  unfold unseen. etransitivity; [apply filter_length_all|]. now rewrite map_length.
+Qed.
+
+Theorem read_roots_terminates fs roots : read_roots fs roots <> None.
+Proof.
+  unfold read_roots.
+  assert (H : forall l s, exists s', ofold (read_dir (read_fuel fs) fs) l (Some s) = Some s').
+  { induction l as [|d l IHl]; intros s.
+    - exists s. reflexivity.
+    - rewrite ofold_cons.
+      destruct (read_dir_total fs (read_fuel fs) d s) as [s1 [E1 _]].
+      { unfold read_fuel. pose proof (unseen_le_length fs (r_seen s)). lia. }
+      rewrite E1. apply IHl. }
+  destruct (H (sort_dedup roots) r_init) as [s' E]. rewrite E. discriminate.
+Qed.
 
 (** * The pre-repair recursion diverges on a self-referencing sub_builds *)
 
@@ -14,3 +265,926 @@ Proof.
   induction fuel as [|f IH]; intros st; [reflexivity|].
   cbn. apply IH.
 Qed.
+
+(** * Loading: termination, soundness and completeness of the error verdict *)
+
+Lemma has_node_cons k n l :
+  has_node k (n :: l) = String.eqb k (nname n) || has_node k l.
+Proof. unfold has_node. simpl. destruct (String.eqb k (nname n)); reflexivity. Qed.
+
+Section LoadSpec.
+  Variable ns : list node.
+  Variable kind : name -> skind.
+
+  (** The dependency graph over the registered nodes. *)
+  Definition edge (a b : name) : Prop :=
+    exists n, find_node a ns = Some n /\ In b (ndeps n).
+
+  (** A name that is neither a registered node nor a source file. *)
+  Definition dangling (a : name) : Prop :=
+    find_node a ns = None /\ (kind a <> KFile \/ a = "").
+
+  Definition on_cycle (a : name) : Prop := clos_trans name edge a a.
+
+  (** Something wrong is reachable from [nm] ([sigma]: names of callers still
+      on the tracer's stack). *)
+  Definition problem (nm : name) (sigma : list name) : Prop :=
+    exists a, clos_refl_trans name edge nm a /\
+              (dangling a \/ on_cycle a \/ In a sigma).
+
+  Definition lnode_ok (n : node) : Prop :=
+    find_node (nname n) ns = Some n \/
+    (find_node (nname n) ns = None /\ kind (nname n) = KFile /\
+     nname n <> "" /\ n = src_node (nname n)).
+
+  (** The loaded list (newest first) is a topological order: every node's
+      dependencies were loaded before it. *)
+  Fixpoint topo (L : list node) : Prop :=
+    match L with
+    | [] => True
+    | n :: r => lnode_ok n /\ has_node (nname n) r = false /\
+                (forall d, In d (ndeps n) -> has_node d r = true) /\ topo r
+    end.
+
+  Definition stack_ok (sg : list name) : Prop :=
+    NoDup sg /\ forall x, In x sg -> has_node x ns = true.
+
+  Definition lpost (s s' : lstate) (inl pb : Prop) : Prop :=
+    l_stack s' = l_stack s /\
+    (l_errs s <> [] -> l_errs s' <> []) /\
+    (forall x, has_node x (l_loaded s) = true -> has_node x (l_loaded s') = true) /\
+    (forall x, has_node x (l_loaded s') = true -> has_node x (l_loaded s) = false ->
+               ~ In x (l_stack s)) /\
+    (l_errs s' = [] -> topo (l_loaded s) -> topo (l_loaded s') /\ inl) /\
+    (l_errs s = [] -> l_errs s' <> [] -> pb).
+
+  Lemma stack_len sg : stack_ok sg -> List.length sg <= List.length ns.
+  Proof.
+    intros [Hnd Hin]. rewrite <- (map_length nname ns).
+    apply NoDup_incl_length; [assumption|].
+    intros x Hx. apply has_node_In. auto.
+  Qed.
+
+  Lemma errs_nil_dec (l : list lerr) : l = [] \/ l <> [].
+  Proof. destruct l; [left; reflexivity|right; discriminate]. Qed.
+
+  Lemma lpost_intro s s' (inl pb : Prop) :
+    l_stack s' = l_stack s ->
+    (l_errs s <> [] -> l_errs s' <> []) ->
+    (forall x, has_node x (l_loaded s) = true -> has_node x (l_loaded s') = true) ->
+    (forall x, has_node x (l_loaded s') = true -> has_node x (l_loaded s) = false ->
+               ~ In x (l_stack s)) ->
+    (l_errs s' = [] -> topo (l_loaded s) -> topo (l_loaded s') /\ inl) ->
+    (l_errs s = [] -> l_errs s' <> [] -> pb) ->
+    lpost s s' inl pb.
+  Proof. unfold lpost. tauto. Qed.
+
+  Lemma load_deps_spec f :
+    (forall nm s, stack_ok (l_stack s) -> f + List.length (l_stack s) > List.length ns ->
+       exists s', load1 ns kind f nm s = Some s' /\
+         lpost s s' (has_node nm (l_loaded s') = true) (problem nm (l_stack s))) ->
+    forall deps s, stack_ok (l_stack s) -> f + List.length (l_stack s) > List.length ns ->
+      exists s', ofold (load1 ns kind f) deps (Some s) = Some s' /\
+        lpost s s' (forall d, In d deps -> has_node d (l_loaded s') = true)
+                   (exists d, In d deps /\ problem d (l_stack s)).
+  Proof.
+    intros IH. induction deps as [|d r IHr]; intros s Hst Hf.
+    - exists s. split; [reflexivity|]. apply lpost_intro; auto.
+      + intros x H1 H2. congruence.
+      + intros H1 H2. congruence.
+    - rewrite ofold_cons.
+      destruct (IH d s Hst Hf) as [sa [Ea Pa]]. rewrite Ea.
+      destruct Pa as (Sa & Ma & La & Na & Ta & Ba).
+      destruct (IHr sa) as [s1 [E1 P1]]; [now rewrite Sa|now rewrite Sa|].
+      destruct P1 as (S1 & M1 & L1 & N1 & T1 & B1).
+      exists s1. split; [exact E1|]. apply lpost_intro.
+      + congruence.
+      + auto.
+      + auto.
+      + intros x Hx1 Hx0. destruct (has_node x (l_loaded sa)) eqn:Hxa.
+        * now apply Na.
+        * rewrite <- Sa. now apply N1.
+      + intros He Ht.
+        destruct (errs_nil_dec (l_errs sa)) as [Ha|Ha]; [|exfalso; now apply M1].
+        destruct (Ta Ha Ht) as [Tsa Ind]. destruct (T1 He Tsa) as [Ts1 Inr].
+        split; [assumption|]. intros d' [<-|Hd']; [now apply L1|now apply Inr].
+      + intros H0 H1. destruct (errs_nil_dec (l_errs sa)) as [Ha|Ha].
+        * destruct (B1 Ha H1) as [d' [Hd' Pd']]. exists d'. split; [now right|]. now rewrite <- Sa.
+        * exists d. split; [now left|]. now apply Ba.
+  Qed.
+
+  Lemma t_rt a b : clos_trans name edge a b -> clos_refl_trans name edge a b.
+  Proof.
+    induction 1 as [x y H|x y z H1 IH1 H2 IH2]; [now apply rt_step|].
+    eapply rt_trans; eauto.
+  Qed.
+
+  Lemma edge_rt_t a b c : edge a b -> clos_refl_trans name edge b c -> clos_trans name edge a c.
+  Proof.
+    intros Hab Hbc. apply clos_rt_rt1n in Hbc. revert a Hab.
+    induction Hbc as [x|x y z Hxy Hyz IHc]; intros a Hab.
+    - now apply t_step.
+    - eapply t_trans; [apply t_step; exact Hab|]. now apply IHc.
+  Qed.
+
+  Lemma load1_spec : forall f nm s,
+    stack_ok (l_stack s) -> f + List.length (l_stack s) > List.length ns ->
+    exists s', load1 ns kind f nm s = Some s' /\
+      lpost s s' (has_node nm (l_loaded s') = true) (problem nm (l_stack s)).
+  Proof.
+    induction f as [|f IH]; intros nm s Hst Hf.
+    { pose proof (stack_len _ Hst). lia. }
+    simpl. destruct (mem nm (l_stack s)) eqn:Hm.
+    { (* already on the stack: circular dependency *)
+      eexists. split; [reflexivity|]. apply lpost_intro; unfold l_err; simpl; auto.
+      - intros _. apply add_err_nonnil.
+      - intros x H1 H2. congruence.
+      - intros H. exfalso. revert H. apply add_err_nonnil.
+      - intros _ _. exists nm. split; [apply rt_refl|]. right. right. now apply mem_In. }
+    apply mem_false in Hm.
+    destruct (has_node nm (l_loaded s)) eqn:Hl.
+    { exists s. split; [reflexivity|]. apply lpost_intro; auto.
+      - intros x H1 H2. congruence.
+      - intros H1 H2. congruence. }
+    destruct (find_node nm ns) as [n|] eqn:Hn.
+    - (* a registered node: load its dependencies with nm on the stack *)
+      pose proof (find_node_Some _ _ _ Hn) as [Hin Hname].
+      set (s0 := mkL (nm :: l_stack s) (l_loaded s) (l_errs s)).
+      assert (Hst0 : stack_ok (l_stack s0)).
+      { destruct Hst as [Hnd Hreg]. split; simpl.
+        - now constructor.
+        - intros x [<-|Hx]; [|auto]. unfold has_node. now rewrite Hn. }
+      assert (Hf0 : f + List.length (l_stack s0) > List.length ns) by (simpl; lia).
+      destruct (load_deps_spec f IH (ndeps n) s0 Hst0 Hf0) as [s1 [E1 P1]].
+      rewrite E1.
+      destruct P1 as (S1 & M1 & L1 & N1 & T1 & B1). simpl in *.
+      eexists. split; [reflexivity|]. apply lpost_intro; simpl.
+      + reflexivity.
+      + exact M1.
+      + intros x Hx. rewrite has_node_cons. rewrite (L1 x Hx). apply orb_true_r.
+      + intros x Hx Hx0. rewrite has_node_cons in Hx. apply orb_true_iff in Hx.
+        destruct Hx as [Hx|Hx].
+        * apply String.eqb_eq in Hx. subst x. now rewrite Hname.
+        * intros Hin'. apply (N1 x Hx Hx0). now right.
+      + intros He Ht. destruct (T1 He Ht) as [Ts1 Hdeps]. split.
+        * repeat split.
+          -- left. now rewrite Hname.
+          -- rewrite Hname. destruct (has_node nm (l_loaded s1)) eqn:Hc; [|reflexivity].
+             exfalso. apply (N1 nm Hc Hl). now left.
+          -- exact Hdeps.
+          -- exact Ts1.
+        * rewrite has_node_cons, Hname, String.eqb_refl. reflexivity.
+      + intros H0 H1. destruct (B1 H0 H1) as [d [Hd [a [Hda Ha]]]].
+        assert (Hnd : edge nm d) by (exists n; auto).
+        destruct Ha as [Ha|[Ha|[<-|Ha]]].
+        * exists a. split; [|now left]. eapply rt_trans; [apply rt_step; exact Hnd|exact Hda].
+        * exists a. split; [|now right; left]. eapply rt_trans; [apply rt_step; exact Hnd|exact Hda].
+        * exists nm. split; [apply rt_refl|]. right. left. eapply edge_rt_t; eauto.
+        * exists a. split; [|now right; right]. eapply rt_trans; [apply rt_step; exact Hnd|exact Hda].
+    - (* not registered: a source file, or nothing *)
+      destruct (kind nm) eqn:Hk.
+      + eexists. split; [reflexivity|]. apply lpost_intro; unfold l_err; simpl; auto.
+        * intros _. apply add_err_nonnil.
+        * intros x H1 H2. congruence.
+        * intros H. exfalso. revert H. apply add_err_nonnil.
+        * intros _ _. exists nm. split; [apply rt_refl|]. left. split; [assumption|].
+          left. congruence.
+      + eexists. split; [reflexivity|]. apply lpost_intro; simpl; auto.
+        * destruct (String.eqb nm ""); [intros _; apply add_err_nonnil|auto].
+        * intros x Hx. rewrite has_node_cons, Hx. apply orb_true_r.
+        * intros x Hx Hx0. rewrite has_node_cons in Hx. simpl in Hx.
+          apply orb_true_iff in Hx. destruct Hx as [Hx|Hx]; [|congruence].
+          apply String.eqb_eq in Hx. now subst x.
+        * intros He Ht. destruct (String.eqb_spec nm "") as [E|E].
+          { exfalso. revert He. apply add_err_nonnil. }
+          split.
+          -- simpl. split; [right; simpl; auto|]. split; [assumption|].
+             split; [intros d []|assumption].
+          -- rewrite has_node_cons. simpl. now rewrite String.eqb_refl.
+        * intros H0 H1. destruct (String.eqb_spec nm "") as [E|E]; [|congruence].
+          exists nm. split; [apply rt_refl|]. left. split; auto.
+      + eexists. split; [reflexivity|]. apply lpost_intro; unfold l_err; simpl; auto.
+        * intros _. apply add_err_nonnil.
+        * intros x H1 H2. congruence.
+        * intros H. exfalso. revert H. apply add_err_nonnil.
+        * intros _ _. exists nm. split; [apply rt_refl|]. left. split; [assumption|].
+          left. congruence.
+  Qed.
+
+  (** ** What a topologically ordered loaded list excludes *)
+
+  Lemma topo_node L a :
+    topo L -> has_node a L = true ->
+    exists n, In n L /\ nname n = a /\ lnode_ok n /\
+              forall d, In d (ndeps n) -> has_node d L = true.
+  Proof.
+    induction L as [|n r IH]; simpl; intros Ht Ha.
+    - unfold has_node in Ha. simpl in Ha. discriminate.
+    - destruct Ht as (Hok & Hnr & Hd & Htr). rewrite has_node_cons in Ha.
+      apply orb_true_iff in Ha. destruct Ha as [Ha|Ha].
+      + apply String.eqb_eq in Ha. exists n. repeat split; auto.
+        intros d Hdd. rewrite has_node_cons, (Hd d Hdd). apply orb_true_r.
+      + destruct (IH Htr Ha) as (m & Hm & Hnm & Hokm & Hdm).
+        exists m. repeat split; auto.
+        intros d Hdd. rewrite has_node_cons, (Hdm d Hdd). apply orb_true_r.
+  Qed.
+
+  Lemma topo_edge L a b :
+    topo L -> has_node a L = true -> edge a b -> has_node b L = true.
+  Proof.
+    intros Ht Ha [m [Hm Hb]].
+    destruct (topo_node L a Ht Ha) as (n & Hn & Hnm & Hok & Hd).
+    destruct Hok as [Hf|[Hf _]]; rewrite Hnm in Hf; [|congruence].
+    assert (m = n) by congruence. subst m. auto.
+  Qed.
+
+  Lemma topo_closed L a b :
+    topo L -> has_node a L = true -> clos_refl_trans name edge a b -> has_node b L = true.
+  Proof.
+    intros Ht Ha Hab. apply clos_rt_rt1n in Hab.
+    induction Hab as [x|x y z Hxy Hyz IH]; [assumption|].
+    apply IH. eapply topo_edge; eauto.
+  Qed.
+
+  Lemma topo_not_dangling L a : topo L -> has_node a L = true -> ~ dangling a.
+  Proof.
+    intros Ht Ha [Hf Hk].
+    destruct (topo_node L a Ht Ha) as (n & Hn & Hnm & Hok & Hd).
+    destruct Hok as [Hf'|(_ & Hk' & Hne & _)]; rewrite Hnm in *; [congruence|].
+    destruct Hk; congruence.
+  Qed.
+
+  Lemma topo_acyclic L : topo L -> forall a, has_node a L = true -> ~ on_cycle a.
+  Proof.
+    induction L as [|n r IH]; intros Ht a Ha Hc.
+    - unfold has_node in Ha. simpl in Ha. discriminate.
+    - assert (Ht' := Ht). destruct Ht as (Hok & Hnr & Hd & Htr).
+      destruct (has_node a r) eqn:Har.
+      + exact (IH Htr a Har Hc).
+      + rewrite has_node_cons, Har, orb_false_r in Ha. apply String.eqb_eq in Ha. subst a.
+        unfold on_cycle in Hc. apply clos_trans_t1n in Hc.
+        assert (Hstep : exists d, edge (nname n) d /\ clos_refl_trans name edge d (nname n)).
+        { inversion Hc as [y Hy|y z Hy Hyz]; subst.
+          - exists (nname n). split; [assumption|apply rt_refl].
+          - exists y. split; [assumption|]. apply clos_t1n_trans in Hyz.
+            now apply t_rt. }
+        destruct Hstep as [d [Hnd Hdn]].
+        assert (Hdr : has_node d r = true).
+        { destruct Hnd as [m [Hm Hdm]].
+          destruct Hok as [Hf|[Hf _]]; [|congruence].
+          assert (m = n) by congruence. subst m. auto. }
+        pose proof (topo_closed r d (nname n) Htr Hdr Hdn). congruence.
+  Qed.
+
+  (** ** [load] of the requested names *)
+
+  Definition bad_reachable (targets : list name) : Prop :=
+    exists t a, In t targets /\ clos_refl_trans name edge t a /\ (dangling a \/ on_cycle a).
+
+  Theorem load_all_spec targets :
+    exists s', load_all ns kind targets (mkL [] [] []) = Some s' /\
+      (l_errs s' <> [] <-> bad_reachable targets) /\
+      (l_errs s' = [] ->
+         topo (l_loaded s') /\ forall t, In t targets -> has_node t (l_loaded s') = true).
+  Proof.
+    unfold load_all.
+    assert (Hst : stack_ok (l_stack (mkL [] [] []))).
+    { split; simpl; [constructor|intros x []]. }
+    assert (Hf : load_fuel ns + List.length (l_stack (mkL [] [] [])) > List.length ns)
+      by (unfold load_fuel; simpl; lia).
+    destruct (load_deps_spec (load_fuel ns) (load1_spec (load_fuel ns)) targets _ Hst Hf)
+      as [s' [E P]].
+    exists s'. split; [exact E|].
+    destruct P as (S1 & M1 & L1 & N1 & T1 & B1). simpl in *.
+    assert (Hok : l_errs s' = [] ->
+              topo (l_loaded s') /\ forall t, In t targets -> has_node t (l_loaded s') = true).
+    { intros He. apply T1; [assumption|exact I]. }
+    split; [|exact Hok]. split.
+    - intros Hne. destruct (B1 eq_refl Hne) as [t [Ht [a [Hta Ha]]]].
+      exists t, a. repeat split; auto. destruct Ha as [Ha|[Ha|[]]]; auto.
+    - intros [t [a (Ht & Hta & Ha)]] He.
+      destruct (Hok He) as [Htopo Hin].
+      pose proof (topo_closed _ t a Htopo (Hin t Ht) Hta) as Hal.
+      destruct Ha as [Ha|Ha].
+      + exact (topo_not_dangling _ a Htopo Hal Ha).
+      + exact (topo_acyclic _ Htopo a Hal Ha).
+  Qed.
+End LoadSpec.
+
+(** * The depth-first build walk over a loaded list *)
+
+(** A loaded list on its own: names are unique and every dependency of a
+    node sits deeper in the list. *)
+Fixpoint wf_loaded (L : list node) : Prop :=
+  match L with
+  | [] => True
+  | n :: r => has_node (nname n) r = false /\
+              (forall d, In d (ndeps n) -> has_node d r = true) /\ wf_loaded r
+  end.
+
+Lemma topo_wf ns kind L : topo ns kind L -> wf_loaded L.
+Proof. induction L as [|n r IH]; simpl; [auto|]. intros (_ & A & B & C). auto. Qed.
+
+Fixpoint rank (L : list node) (k : name) : nat :=
+  match L with
+  | [] => 0
+  | n :: r => if String.eqb k (nname n) then S (List.length r) else rank r k
+  end.
+
+Lemma rank_le L k : rank L k <= List.length L.
+Proof.
+  induction L as [|n r IH]; simpl; [lia|]. destruct (String.eqb k (nname n)); lia.
+Qed.
+
+Lemma has_node_find k L : has_node k L = true -> exists n, find_node k L = Some n.
+Proof. unfold has_node. destruct (find_node k L); [eauto|discriminate]. Qed.
+
+Lemma wf_loaded_dep L : wf_loaded L -> forall k n d,
+  find_node k L = Some n -> In d (ndeps n) ->
+  exists dn, find_node d L = Some dn /\ rank L d < rank L k.
+Proof.
+  induction L as [|m r IH]; simpl; intros Hwf k n d Hk Hd; [discriminate|].
+  destruct Hwf as (Hm & Hdeps & Hwf).
+  destruct (String.eqb_spec k (nname m)) as [Ek|Ek].
+  - injection Hk as <-. pose proof (Hdeps d Hd) as Hdr.
+    destruct (String.eqb_spec d (nname m)) as [Ed|Ed]; [congruence|].
+    destruct (has_node_find _ _ Hdr) as [dn Hdn]. exists dn. split; [assumption|].
+    pose proof (rank_le r d). lia.
+  - destruct (IH Hwf k n d Hk Hd) as [dn [Hdn Hr]].
+    destruct (String.eqb_spec d (nname m)) as [Ed|Ed].
+    + exfalso. subst d. apply find_node_Some in Hdn. destruct Hdn as [Hin Hnm].
+      apply has_node_false in Hm. apply Hm. rewrite <- Hnm. now apply in_map.
+    + exists dn. split; assumption.
+Qed.
+
+Section DfsSpec.
+  Variable L : list node.
+  Hypothesis Hwf : wf_loaded L.
+
+  Definition edgeL (a b : name) : Prop :=
+    exists m, find_node a L = Some m /\ In b (ndeps m).
+
+  (** The nodes a walk from [n] visits for the first time, in visiting order
+      (dependencies first); [built] = names already visited. *)
+  Definition post_step (f : node -> list name -> option (list node)) (built : list name)
+             (acc : option (list node)) (dep : name) : option (list node) :=
+    match acc with
+    | None => None
+    | Some new =>
+        match find_node dep L with
+        | None => None
+        | Some dn =>
+            match f dn (rev (map nname new) ++ built)%list with
+            | None => None
+            | Some new' => Some (new ++ new')%list
+            end
+        end
+    end.
+
+  Fixpoint post (fuel : nat) (n : node) (built : list name) : option (list node) :=
+    match fuel with
+    | O => None
+    | S f =>
+        if mem (nname n) built then Some []
+        else match fold_left (post_step (post f) built) (ndeps n) (Some []) with
+             | None => None
+             | Some new => Some (new ++ [n])%list
+             end
+    end.
+
+  Lemma post_step_none f built deps :
+    fold_left (post_step f built) deps None = None.
+  Proof. induction deps; simpl; auto. Qed.
+
+  (** *** Totality *)
+  Lemma post_total : forall f n built,
+    find_node (nname n) L = Some n -> rank L (nname n) < f ->
+    exists new, post f n built = Some new.
+  Proof.
+    induction f as [|f IH]; intros n built Hn Hr; [lia|].
+    simpl. destruct (mem (nname n) built); [eauto|].
+    assert (H : forall deps acc,
+              (forall d, In d deps -> In d (ndeps n)) ->
+              exists new, fold_left (post_step (post f) built) deps (Some acc) = Some new).
+    { induction deps as [|d deps IHd]; intros acc Hsub; simpl; [eauto|].
+      destruct (wf_loaded_dep L Hwf _ _ d Hn (Hsub d (or_introl eq_refl))) as [dn [Hdn Hrk]].
+      rewrite Hdn.
+      pose proof (find_node_Some _ _ _ Hdn) as [_ Hnm].
+      destruct (IH dn (rev (map nname acc) ++ built)%list) as [new' E'].
+      { now rewrite Hnm. }
+      { rewrite Hnm. lia. }
+      rewrite E'. apply IHd. intros x Hx. apply Hsub. now right. }
+    destruct (H (ndeps n) [] (fun d Hd => Hd)) as [new E]. rewrite E. eauto.
+  Qed.
+
+  (** *** What the visiting order satisfies *)
+  Definition names (l : list node) : list name := map nname l.
+
+  Record post_ok (start : list name) (built : list name) (new : list node) : Prop := {
+    po_nodes : forall x, In x new ->
+                 find_node (nname x) L = Some x /\ ~ In (nname x) built /\
+                 exists s, In s start /\ clos_refl_trans name edgeL s (nname x);
+    po_nodup : NoDup (names new);
+    po_deps : forall l1 x l2, new = (l1 ++ x :: l2)%list ->
+                forall d, In d (ndeps x) -> In d built \/ In d (names l1)
+  }.
+
+  Lemma post_ok_nil start built : post_ok start built [].
+  Proof.
+    constructor; simpl; [intros x []|constructor|].
+    intros l1 x l2 H. destruct l1; discriminate.
+  Qed.
+
+  Lemma names_app a b : names (a ++ b) = (names a ++ names b)%list.
+  Proof. apply map_app. Qed.
+
+  Lemma in_rev_names x new built :
+    In x (rev (names new) ++ built)%list <-> In x built \/ In x (names new).
+  Proof. rewrite in_app_iff, <- in_rev. tauto. Qed.
+
+  Lemma post_ok_app start built a b :
+    post_ok start built a ->
+    post_ok start (rev (names a) ++ built)%list b ->
+    post_ok start built (a ++ b)%list.
+  Proof.
+    intros [A1 A2 A3] [B1 B2 B3]. constructor.
+    - intros x Hx. apply in_app_iff in Hx. destruct Hx as [Hx|Hx]; [auto|].
+      destruct (B1 x Hx) as (F & N & R). repeat split; auto.
+      intros Hb. apply N. apply in_rev_names. now left.
+    - rewrite names_app. apply NoDup_app_intro; auto.
+      intros x Ha Hb. apply in_map_iff in Hb. destruct Hb as [y [<- Hy]].
+      destruct (B1 y Hy) as (_ & N & _). apply N. apply in_rev_names. now right.
+    - intros l1 x l2 E d Hd.
+      destruct (split_app _ _ _ _ _ E) as [[l2' [E1 E2]]|[l1' [E1 E2]]]; subst.
+      + eapply A3; eauto.
+      + destruct (B3 l1' x l2 eq_refl d Hd) as [H|H].
+        * apply in_rev_names in H. destruct H; [now left|right].
+          rewrite names_app. apply in_app_iff. now left.
+        * right. rewrite names_app. apply in_app_iff. now right.
+  Qed.
+
+  Lemma post_ok_start start start' built new :
+    (forall s, In s start -> exists s', In s' start' /\ clos_refl_trans name edgeL s' s) ->
+    post_ok start built new -> post_ok start' built new.
+  Proof.
+    intros Hs [A1 A2 A3]. constructor; auto.
+    intros x Hx. destruct (A1 x Hx) as (F & N & s & Hsin & Hr). repeat split; auto.
+    destruct (Hs s Hsin) as (s' & Hs' & Hr'). exists s'. split; [assumption|].
+    eapply rt_trans; eauto.
+  Qed.
+
+  Lemma post_spec : forall f n built new,
+    find_node (nname n) L = Some n -> post f n built = Some new ->
+    post_ok [nname n] built new /\
+    (In (nname n) built \/ In (nname n) (names new)) /\
+    (forall x, In x new -> rank L (nname x) <= rank L (nname n)).
+  Proof.
+    induction f as [|f IH]; intros n built new Hn Hp; [discriminate|].
+    simpl in Hp. destruct (mem (nname n) built) eqn:Hm.
+    { injection Hp as <-. split; [apply post_ok_nil|]. split; [left; now apply mem_In|intros x []]. }
+    apply mem_false in Hm.
+    destruct (fold_left (post_step (post f) built) (ndeps n) (Some [])) as [dnew|] eqn:Hfold;
+      [|discriminate].
+    injection Hp as <-.
+    assert (H : forall deps acc res,
+              (forall d, In d deps -> In d (ndeps n)) ->
+              post_ok [nname n] built acc ->
+              (forall x, In x acc -> rank L (nname x) < rank L (nname n)) ->
+              fold_left (post_step (post f) built) deps (Some acc) = Some res ->
+              post_ok [nname n] built res /\
+              (forall d, In d deps -> In d built \/ In d (names res)) /\
+              (forall x, In x (names acc) -> In x (names res)) /\
+              (forall x, In x res -> rank L (nname x) < rank L (nname n))).
+    { induction deps as [|d deps IHd]; intros acc res Hsub Hacc Hrk Hf; simpl in Hf.
+      - injection Hf as <-. split; [assumption|]. split; [intros d []|]. split; auto.
+      - destruct (find_node d L) as [dn|] eqn:Hdn; [|now rewrite post_step_none in Hf].
+        destruct (post f dn (rev (map nname acc) ++ built)%list) as [new'|] eqn:Hp';
+          [|now rewrite post_step_none in Hf].
+        pose proof (find_node_Some _ _ _ Hdn) as [_ Hnm].
+        assert (Hdn' : find_node (nname dn) L = Some dn) by now rewrite Hnm.
+        destruct (IH dn _ new' Hdn' Hp') as (Hok' & Hin' & Hrk').
+        rewrite Hnm in *.
+        destruct (wf_loaded_dep L Hwf _ _ d Hn (Hsub d (or_introl eq_refl))) as [dn2 [_ Hdrk]].
+        assert (Hok2 : post_ok [nname n] built (acc ++ new')%list).
+        { apply post_ok_app; [assumption|].
+          eapply post_ok_start; [|exact Hok'].
+          intros s [<-|[]]. exists (nname n). split; [now left|].
+          apply rt_step. exists n. split; [assumption|]. apply Hsub. now left. }
+        destruct (IHd (acc ++ new')%list res) as (R1 & R2 & R3 & R4); auto.
+        { intros x Hx. apply Hsub. now right. }
+        { intros x Hx. apply in_app_iff in Hx. destruct Hx as [Hx|Hx]; [auto|].
+          pose proof (Hrk' x Hx). lia. }
+        split; [assumption|]. split; [|split; [|assumption]].
+        + intros d' [<-|Hd'].
+          * destruct Hin' as [Hin'|Hin'].
+            -- apply in_rev_names in Hin'. destruct Hin' as [Hb|Hb]; [now left|].
+               right. apply R3. unfold names. rewrite map_app. apply in_app_iff. now left.
+            -- right. apply R3. unfold names. rewrite map_app. apply in_app_iff. now right.
+          * auto.
+        + intros x Hx. apply R3. unfold names. rewrite map_app. apply in_app_iff. now left. }
+    destruct (H (ndeps n) [] dnew (fun d Hd => Hd) (post_ok_nil _ _) (fun x (Hx : In x []) => match Hx with end) Hfold)
+      as (R1 & R2 & _ & R4).
+    split; [|split].
+    - apply post_ok_app; [assumption|]. constructor.
+      + intros x [<-|[]]. repeat split; auto.
+        * intros Hb. apply in_rev_names in Hb. destruct Hb as [Hb|Hb]; [auto|].
+          apply in_map_iff in Hb. destruct Hb as [y [Hy1 Hy2]].
+          pose proof (R4 y Hy2). rewrite Hy1 in H0. lia.
+        * exists (nname n). split; [now left|apply rt_refl].
+      + simpl. constructor; [intros []|constructor].
+      + intros l1 x l2 E d Hd. destruct l1 as [|y l1]; simpl in E.
+        * injection E as <- _. destruct (R2 d Hd) as [Hb|Hb].
+          -- left. apply in_rev_names. now left.
+          -- left. apply in_rev_names. now right.
+        * injection E as _ E. destruct l1; discriminate.
+    - right. rewrite names_app. apply in_app_iff. right. now left.
+    - intros x Hx. apply in_app_iff in Hx. destruct Hx as [Hx|[<-|[]]]; [|lia].
+      pose proof (R4 x Hx). lia.
+  Qed.
+
+  Lemma post_S f n built :
+    post (S f) n built =
+    if mem (nname n) built then Some []
+    else match fold_left (post_step (post f) built) (ndeps n) (Some []) with
+         | None => None
+         | Some new => Some (new ++ [n])%list
+         end.
+  Proof. reflexivity. Qed.
+
+  (** *** The walk over the requested nodes ([buildNodes]) *)
+  Arguments post : simpl never.
+  Arguments dfs_fuel : simpl never.
+  Definition ptarget_step (built : list name) (acc : option (list node)) (t : name)
+    : option (list node) :=
+    match acc with
+    | None => None
+    | Some new =>
+        match find_node t L with
+        | None => Some new
+        | Some n =>
+            match ntype n with
+            | TSrc => Some new
+            | _ => match post (dfs_fuel L) n (rev (map nname new) ++ built)%list with
+                   | None => None
+                   | Some new' => Some (new ++ new')%list
+                   end
+            end
+        end
+    end.
+
+  Definition post_targets (ts : list name) (built : list name) : option (list node) :=
+    fold_left (ptarget_step built) ts (Some []).
+
+  Lemma ptarget_step_none built ts : fold_left (ptarget_step built) ts None = None.
+  Proof. induction ts; simpl; auto. Qed.
+
+  Lemma post_targets_total ts built : exists new, post_targets ts built = Some new.
+  Proof.
+    unfold post_targets. generalize (@nil node) as acc.
+    induction ts as [|t ts IH]; intros acc; simpl; [eauto|].
+    destruct (find_node t L) as [n|] eqn:Hn; [|apply IH].
+    destruct (ntype n); try apply IH.
+    - pose proof (find_node_Some _ _ _ Hn) as [_ Hnm].
+      destruct (post_total (dfs_fuel L) n (rev (map nname acc) ++ built)%list) as [new' E].
+      { now rewrite Hnm. }
+      { unfold dfs_fuel. pose proof (rank_le L (nname n)). lia. }
+      rewrite E. apply IH.
+    - pose proof (find_node_Some _ _ _ Hn) as [_ Hnm].
+      destruct (post_total (dfs_fuel L) n (rev (map nname acc) ++ built)%list) as [new' E].
+      { now rewrite Hnm. }
+      { unfold dfs_fuel. pose proof (rank_le L (nname n)). lia. }
+      rewrite E. apply IH.
+  Qed.
+
+  Lemma post_targets_spec ts built new :
+    post_targets ts built = Some new ->
+    post_ok ts built new /\
+    (forall t n, In t ts -> find_node t L = Some n -> ntype n <> TSrc ->
+                 In t built \/ In t (names new)).
+  Proof.
+    unfold post_targets.
+    assert (H : forall ts0 acc res,
+              (forall t, In t ts0 -> In t ts) ->
+              post_ok ts built acc ->
+              fold_left (ptarget_step built) ts0 (Some acc) = Some res ->
+              post_ok ts built res /\
+              (forall t n, In t ts0 -> find_node t L = Some n -> ntype n <> TSrc ->
+                           In t built \/ In t (names res)) /\
+              (forall x, In x (names acc) -> In x (names res))).
+    { induction ts0 as [|t ts0 IH]; intros acc res Hsub Hacc Hf; simpl in Hf.
+      - injection Hf as <-. split; [assumption|]. split; [intros t n []|auto].
+      - assert (Hsub' : forall t', In t' ts0 -> In t' ts) by (intros t' Ht'; apply Hsub; now right).
+        destruct (find_node t L) as [n|] eqn:Hn.
+        + assert (Hsrc : ntype n = TSrc ->
+                   fold_left (ptarget_step built) ts0 (Some acc) = Some res ->
+                   post_ok ts built res /\
+                   (forall t' n', t = t' \/ In t' ts0 -> find_node t' L = Some n' ->
+                       ntype n' <> TSrc -> In t' built \/ In t' (names res)) /\
+                   (forall x, In x (names acc) -> In x (names res))).
+          { intros Hty Hf'. destruct (IH acc res Hsub' Hacc Hf') as (R1 & R2 & R3).
+            split; [assumption|]. split; [|assumption].
+            intros t' n' [<-|Ht'] Hn' Hty'; [congruence|eauto]. }
+          assert (Hgo : forall new',
+                   post (dfs_fuel L) n (rev (map nname acc) ++ built)%list = Some new' ->
+                   fold_left (ptarget_step built) ts0 (Some (acc ++ new')%list) = Some res ->
+                   post_ok ts built res /\
+                   (forall t' n', t = t' \/ In t' ts0 -> find_node t' L = Some n' ->
+                       ntype n' <> TSrc -> In t' built \/ In t' (names res)) /\
+                   (forall x, In x (names acc) -> In x (names res))).
+          { intros new' Hp Hf'.
+            pose proof (find_node_Some _ _ _ Hn) as [_ Hnm].
+            assert (Hn' : find_node (nname n) L = Some n) by now rewrite Hnm.
+            destruct (post_spec _ _ _ _ Hn' Hp) as (Hok' & Hin' & _). rewrite Hnm in *.
+            assert (Hok2 : post_ok ts built (acc ++ new')%list).
+            { apply post_ok_app; [assumption|]. eapply post_ok_start; [|exact Hok'].
+              intros s [<-|[]]. exists t. split; [apply Hsub; now left|apply rt_refl]. }
+            destruct (IH _ res Hsub' Hok2 Hf') as (R1 & R2 & R3).
+            split; [assumption|]. split.
+            - intros t' n' [<-|Ht'] Hn2 Hty'; [|eauto].
+              destruct Hin' as [Hin'|Hin'].
+              + apply in_rev_names in Hin'. destruct Hin' as [Hb|Hb]; [now left|].
+                right. apply R3. rewrite names_app. apply in_app_iff. now left.
+              + right. apply R3. rewrite names_app. apply in_app_iff. now right.
+            - intros x Hx. apply R3. rewrite names_app. apply in_app_iff. now left. }
+          destruct (ntype n) eqn:Hty.
+          * now apply Hsrc.
+          * destruct (post (dfs_fuel L) n (rev (map nname acc) ++ built)%list) as [new'|] eqn:Hp;
+              [|now rewrite ptarget_step_none in Hf]. now apply (Hgo new').
+          * destruct (post (dfs_fuel L) n (rev (map nname acc) ++ built)%list) as [new'|] eqn:Hp;
+              [|now rewrite ptarget_step_none in Hf]. now apply (Hgo new').
+        + destruct (IH acc res Hsub' Hacc Hf) as (R1 & R2 & R3).
+          split; [assumption|]. split; [|assumption].
+          intros t' n' [<-|Ht'] Hn' Hty'; [congruence|eauto]. }
+    intros Hf. destruct (H ts [] new (fun t Ht => Ht) (post_ok_nil _ _) Hf) as (R1 & R2 & _).
+    split; assumption.
+  Qed.
+
+  (** Everything a visited node depends on, directly or not, was visited
+      strictly before it. *)
+  Lemma post_before start new :
+    post_ok start [] new ->
+    forall k l1 x l2, List.length l1 <= k -> new = (l1 ++ x :: l2)%list ->
+    forall b, clos_trans name edgeL (nname x) b -> In b (names l1).
+  Proof.
+    intros Hok. induction k as [|k IH]; intros l1 x l2 Hlen E b Hb.
+    - destruct l1; [|simpl in Hlen; lia].
+      apply clos_trans_t1n in Hb.
+      assert (Hd : exists d, edgeL (nname x) d) by (inversion Hb; eauto).
+      destruct Hd as [d [m [Hm Hdm]]].
+      destruct (po_nodes _ _ _ Hok x) as (Hx & _).
+      { rewrite E. apply in_app_iff. right. now left. }
+      assert (m = x) by congruence. subst m.
+      destruct (po_deps _ _ _ Hok _ _ _ E d Hdm) as [[]|[]].
+    - apply clos_trans_t1n in Hb.
+      destruct (po_nodes _ _ _ Hok x) as (Hx & _).
+      { rewrite E. apply in_app_iff. right. now left. }
+      assert (Hstep : forall d, edgeL (nname x) d -> In d (names l1)).
+      { intros d [m [Hm Hdm]]. assert (m = x) by congruence. subst m.
+        destruct (po_deps _ _ _ Hok _ _ _ E d Hdm) as [[]|H]. exact H. }
+      inversion Hb as [y Hy|y z Hy Hyz]; subst; [now apply Hstep|].
+      pose proof (Hstep y Hy) as Hin. apply in_map_iff in Hin.
+      destruct Hin as [yn [Hyn Hyin]]. apply in_split in Hyin.
+      destruct Hyin as [l1a [l1b ->]].
+      assert (Hb' : In b (names l1a)).
+      { apply (IH l1a yn (l1b ++ x :: l2)%list).
+        - rewrite app_length in Hlen. simpl in Hlen. lia.
+        - rewrite <- app_assoc. reflexivity.
+        - rewrite Hyn. now apply clos_t1n_trans. }
+      rewrite names_app. apply in_app_iff. now left.
+  Qed.
+
+  (** *** [dfs] does [visit] at the nodes of [post], in that order *)
+  Section Generic.
+    Variable St Er : Type.
+    Variable visit : node -> St -> St + Er.
+    Variable missing : name -> name -> Er.
+
+    Fixpoint run (new : list node) (bs : list name * St) : (list name * St) + Er :=
+      match new with
+      | [] => inl bs
+      | x :: r =>
+          match visit x (snd bs) with
+          | inl st' => run r (nname x :: fst bs, st')
+          | inr e => inr e
+          end
+      end.
+
+    Lemma run_app a b bs :
+      run (a ++ b) bs = match run a bs with inl bs' => run b bs' | inr e => inr e end.
+    Proof.
+      revert bs. induction a as [|x a IH]; intros bs; simpl; [reflexivity|].
+      destruct (visit x (snd bs)); [apply IH|reflexivity].
+    Qed.
+
+    Lemma run_built a bs bs' : run a bs = inl bs' -> fst bs' = (rev (names a) ++ fst bs)%list.
+    Proof.
+      revert bs. induction a as [|x a IH]; intros bs; simpl.
+      - intros [= <-]. reflexivity.
+      - destruct (visit x (snd bs)); [|discriminate]. intros H.
+        rewrite (IH _ H). simpl. now rewrite <- app_assoc.
+    Qed.
+
+    Lemma dfs_post : forall f n built st new,
+      post f n built = Some new ->
+      dfs St Er L visit missing f n (built, st) = Some (run new (built, st)).
+    Proof.
+      induction f as [|f IH]; intros n built st new Hp; [discriminate|].
+      rewrite post_S in Hp. cbn [dfs fst].
+      destruct (mem (nname n) built); [injection Hp as <-; reflexivity|].
+      destruct (fold_left (post_step (post f) built) (ndeps n) (Some [])) as [dnew|] eqn:Hfold;
+        [|discriminate].
+      injection Hp as <-.
+      assert (H : forall deps acc res,
+                fold_left (post_step (post f) built) deps (Some acc) = Some res ->
+                fold_left (dstep St Er L missing (fun _ dn bs => dfs St Er L visit missing f dn bs)
+                                 (nname n)) deps (Some (run acc (built, st)))
+                = Some (run res (built, st))).
+      { induction deps as [|d deps IHd]; intros acc res Hf; cbn [fold_left] in *.
+        - now injection Hf as <-.
+        - unfold post_step at 2 in Hf.
+          destruct (find_node d L) as [dn|] eqn:Hdn; [|now rewrite post_step_none in Hf].
+          destruct (post f dn (rev (map nname acc) ++ built)%list) as [new'|] eqn:Hp';
+            [|now rewrite post_step_none in Hf].
+          rewrite <- (IHd _ _ Hf). f_equal.
+          unfold dstep. rewrite run_app.
+          destruct (run acc (built, st)) as [[b' st']|e] eqn:Hr; [|reflexivity].
+          rewrite Hdn. pose proof (run_built _ _ _ Hr) as Hb. simpl in Hb. subst b'.
+          now apply IH. }
+      specialize (H (ndeps n) [] dnew Hfold). cbn [run] in H.
+      match goal with
+      | |- match ?X with _ => _ end = _ =>
+          replace X with (Some (run dnew (built, st))) by (symmetry; exact H)
+      end.
+      rewrite run_app. destruct (run dnew (built, st)) as [[b' st']|e]; [|reflexivity].
+      cbn [run snd fst]. destruct (visit n st'); reflexivity.
+    Qed.
+
+    Lemma dfs_targets_post ts built st new :
+      post_targets ts built = Some new ->
+      dfs_targets St Er L visit missing ts (built, st) = Some (run new (built, st)).
+    Proof.
+      unfold post_targets, dfs_targets.
+      assert (H : forall ts new acc (r : dres St Er),
+                r = run acc (built, st) ->
+                fold_left (ptarget_step built) ts (Some acc) = Some new ->
+                fold_left
+                  (fun (r : option (dres St Er)) (t : name) =>
+                     match r with
+                     | Some (inl bs) =>
+                         match find_node t L with
+                         | Some n =>
+                             match ntype n with
+                             | TSrc => Some (inl bs)
+                             | _ => dfs St Er L visit missing (dfs_fuel L) n bs
+                             end
+                         | None => Some (inl bs)
+                         end
+                     | Some (inr e) => Some (inr e)
+                     | None => None
+                     end) ts (Some r) = Some (run new (built, st))).
+      { clear ts new. induction ts as [|t ts IH]; intros new acc r Hr Hf; cbn [fold_left] in *.
+        - injection Hf as <-. now subst r.
+        - unfold ptarget_step at 2 in Hf.
+          destruct r as [[b' st']|e].
+          + symmetry in Hr. pose proof (run_built _ _ _ Hr) as Hb. simpl in Hb. unfold names in Hb. subst b'.
+            destruct (find_node t L) as [n|] eqn:Hn.
+            * destruct (ntype n) eqn:Hty.
+              -- apply (IH new acc); [now symmetry|assumption].
+              -- destruct (post (dfs_fuel L) n (rev (map nname acc) ++ built)%list) as [new'|] eqn:Hp;
+                   [|now rewrite ptarget_step_none in Hf].
+                 rewrite (dfs_post _ _ _ st' _ Hp).
+                 apply (IH new (acc ++ new')%list); [|assumption].
+                 rewrite run_app, Hr. reflexivity.
+              -- destruct (post (dfs_fuel L) n (rev (map nname acc) ++ built)%list) as [new'|] eqn:Hp;
+                   [|now rewrite ptarget_step_none in Hf].
+                 rewrite (dfs_post _ _ _ st' _ Hp).
+                 apply (IH new (acc ++ new')%list); [|assumption].
+                 rewrite run_app, Hr. reflexivity.
+            * apply (IH new acc); [now symmetry|assumption].
+          + (* an earlier visit failed: nothing more happens *)
+            assert (Hres : exists acc', fold_left (ptarget_step built) ts (Some acc') = Some new
+                                        /\ inr e = run acc' (built, st)).
+            { destruct (find_node t L) as [n|]; [|eauto].
+              destruct (ntype n); [eauto| |];
+                (destruct (post (dfs_fuel L) n (rev (map nname acc) ++ built)%list) as [new'|];
+                 [|now rewrite ptarget_step_none in Hf];
+                 exists (acc ++ new')%list; split; [assumption|]; now rewrite run_app, <- Hr). }
+            destruct Hres as [acc' [Hf' Hr']]. apply (IH new acc'); assumption. }
+      intros Hf. apply (H ts new []); [reflexivity|assumption].
+    Qed.
+  End Generic.
+
+  (** *** The execution order observed by C11 *)
+  Definition is_rule (x : node) : bool :=
+    match ntype x with TRule => true | _ => false end.
+
+  Lemma run_exec new b ex :
+    run (list name) unit exec_visit new (b, ex)
+    = inl ((rev (names new) ++ b)%list, (ex ++ names (filter is_rule new))%list).
+  Proof.
+    revert b ex. induction new as [|x new IH]; intros b ex; simpl.
+    - now rewrite app_nil_r.
+    - unfold exec_visit at 1, is_rule at 1. destruct (ntype x); simpl; rewrite IH; simpl;
+        rewrite <- ?app_assoc; reflexivity.
+  Qed.
+
+  Lemma exec_order_post ts :
+    exists new, post_targets ts [] = Some new /\
+                exec_order L ts = CExec (names (filter is_rule new)).
+  Proof.
+    destruct (post_targets_total ts []) as [new Hn]. exists new. split; [assumption|].
+    unfold exec_order.
+    rewrite (dfs_targets_post (list name) unit exec_visit (fun _ _ => tt) ts [] [] new Hn).
+    now rewrite run_exec.
+  Qed.
+
+  Lemma rt_cases {A} (R : relation A) a b :
+    clos_refl_trans A R a b -> a = b \/ clos_trans A R a b.
+  Proof.
+    induction 1 as [x y H|x|x y z H1 IH1 H2 IH2].
+    - right. now apply t_step.
+    - now left.
+    - destruct IH1 as [->|IH1]; [assumption|]. destruct IH2 as [<-|IH2]; [now right|].
+      right. eapply t_trans; eauto.
+  Qed.
+
+  Lemma map_filter_split {A B} (g : A -> B) (p : A -> bool) l e1 a e2 :
+    map g (filter p l) = (e1 ++ a :: e2)%list ->
+    exists l1 x l2, l = (l1 ++ x :: l2)%list /\ p x = true /\ g x = a /\
+                    map g (filter p l1) = e1 /\ map g (filter p l2) = e2.
+  Proof.
+    revert e1. induction l as [|y l IH]; intros e1 E; simpl in E.
+    - destruct e1; discriminate.
+    - destruct (p y) eqn:Py.
+      + destruct e1 as [|z e1]; simpl in E.
+        * injection E as E1 E2. exists [], y, l. simpl. auto.
+        * injection E as E1 E2. destruct (IH e1 E2) as (l1 & x & l2 & -> & Px & Gx & M1 & M2).
+          exists (y :: l1), x, l2. simpl. rewrite Py. simpl. repeat split; auto. congruence.
+      + destruct (IH e1 E) as (l1 & x & l2 & -> & Px & Gx & M1 & M2).
+        exists (y :: l1), x, l2. simpl. rewrite Py. auto.
+  Qed.
+
+  Theorem exec_sound ts :
+    (forall t, In t ts -> has_node t L = true) ->
+    (forall n, In n L -> ntype n = TSrc -> ndeps n = []) ->
+    exists ex, exec_order L ts = CExec ex /\
+      NoDup ex /\
+      (forall r, In r ex <->
+                 exists t n, In t ts /\ clos_refl_trans name edgeL t r /\
+                             find_node r L = Some n /\ ntype n = TRule) /\
+      (forall e1 a e2, ex = (e1 ++ a :: e2)%list ->
+         forall b n, clos_trans name edgeL a b -> find_node b L = Some n ->
+                     ntype n = TRule -> In b e1).
+  Proof.
+    intros Hts Hsrc.
+    destruct (exec_order_post ts) as [new [Hn He]].
+    exists (names (filter is_rule new)). split; [assumption|].
+    destruct (post_targets_spec ts [] new Hn) as [Hok Hin].
+    assert (Hrule : forall x l, In x l -> is_rule x = true -> In (nname x) (names (filter is_rule l))).
+    { intros x l Hx Hr. apply in_map. apply filter_In. auto. }
+    split; [|split].
+    - (* no rule twice *)
+      pose proof (po_nodup _ _ _ Hok) as Hnd. clear -Hnd.
+      induction new as [|x new IH]; simpl in *; [constructor|].
+      inversion Hnd as [|? ? Hx Hnd']; subst. destruct (is_rule x); simpl; [|auto].
+      constructor; [|auto]. intros Hc. apply Hx.
+      apply in_map_iff in Hc. destruct Hc as [y [Hy1 Hy2]]. apply filter_In in Hy2.
+      rewrite <- Hy1. apply in_map. tauto.
+    - intros r. split.
+      + intros Hr. apply in_map_iff in Hr. destruct Hr as [x [<- Hx]].
+        apply filter_In in Hx. destruct Hx as [Hx Hxr].
+        destruct (po_nodes _ _ _ Hok x Hx) as (Hf & _ & s & Hs & Hsr).
+        exists s, x. repeat split; auto. unfold is_rule in Hxr. destruct (ntype x); congruence.
+      + intros (t & n & Ht & Htr & Hn' & Hty).
+        destruct (has_node_find _ _ (Hts t Ht)) as [tn Htn].
+        assert (Hnsrc : ntype tn <> TSrc).
+        { intros Hs. pose proof (find_node_Some _ _ _ Htn) as [Htin _].
+          pose proof (Hsrc tn Htin Hs) as Hnd.
+          apply clos_rt_rt1n in Htr. inversion Htr as [|y z Hy Hyz]; subst.
+          - congruence.
+          - destruct Hy as [m [Hm Hd]]. assert (m = tn) by congruence. subst m.
+            rewrite Hnd in Hd. destruct Hd. }
+        destruct (Hin t tn Ht Htn Hnsrc) as [[]|Htin].
+        apply in_map_iff in Htin. destruct Htin as [x0 [Hx0 Hx0in]].
+        assert (Hrin : In r (names new)).
+        { destruct (rt_cases _ _ _ Htr) as [<-|Htp].
+          - rewrite <- Hx0. now apply in_map.
+          - apply in_split in Hx0in. destruct Hx0in as [l1 [l2 ->]].
+            rewrite names_app. apply in_app_iff. left.
+            apply (post_before ts _ Hok (List.length l1) l1 x0 l2 (le_n _) eq_refl).
+            now rewrite Hx0. }
+        apply in_map_iff in Hrin. destruct Hrin as [y [Hy Hyin]].
+        destruct (po_nodes _ _ _ Hok y Hyin) as (Hfy & _). rewrite Hy in Hfy.
+        assert (y = n) by congruence. subst y. rewrite <- Hy. apply Hrule; [assumption|].
+        unfold is_rule. now rewrite Hty.
+    - intros e1 a e2 E b n Hab Hb Hty.
+      destruct (map_filter_split _ _ _ _ _ _ E) as (l1 & x & l2 & Hnew & Px & Gx & M1 & M2).
+      pose proof (post_before ts _ Hok (List.length l1) l1 x l2 (le_n _) Hnew b) as Hbin.
+      rewrite Gx in Hbin. specialize (Hbin Hab).
+      apply in_map_iff in Hbin. destruct Hbin as [y [Hy Hyin]].
+      destruct (po_nodes _ _ _ Hok y) as (Hfy & _).
+      { rewrite Hnew. apply in_app_iff. now left. }
+      rewrite Hy in Hfy. assert (y = n) by congruence. subst y.
+      rewrite <- M1, <- Hy. apply Hrule; [assumption|]. unfold is_rule. now rewrite Hty.
+  Qed.
+End DfsSpec.
